@@ -10,31 +10,38 @@ use std::io::{self, Read, Seek, SeekFrom, Write};
 
 pub const SEG: usize = 64;
 
-/// 8 x 64 = 512 bytes; `len` = logical length for reading (bytes written so far when used as a sink), `pos` = cursor
+/// 16 x 64 = 1024 bytes; `len` = logical length for reading (bytes written so far when used as a sink), `pos` = cursor
 pub struct Seg {
     pub s0: [u8; SEG], pub s1: [u8; SEG], pub s2: [u8; SEG], pub s3: [u8; SEG],
     pub s4: [u8; SEG], pub s5: [u8; SEG], pub s6: [u8; SEG], pub s7: [u8; SEG],
+    pub s8: [u8; SEG], pub s9: [u8; SEG], pub s10: [u8; SEG], pub s11: [u8; SEG],
+    pub s12: [u8; SEG], pub s13: [u8; SEG], pub s14: [u8; SEG], pub s15: [u8; SEG],
     pub len: usize,
     pub pos: usize,
 }
-pub const CAP: usize = 8 * SEG;
+pub const CAP: usize = 16 * SEG;
 
 impl Seg {
     /// empty sink / zero-filled source of logical length 0
     pub fn new() -> Self {
-        Seg { s0: [0; SEG], s1: [0; SEG], s2: [0; SEG], s3: [0; SEG], s4: [0; SEG], s5: [0; SEG], s6: [0; SEG], s7: [0; SEG], len: 0, pos: 0 }
+        Seg { s0: [0; SEG], s1: [0; SEG], s2: [0; SEG], s3: [0; SEG], s4: [0; SEG], s5: [0; SEG], s6: [0; SEG], s7: [0; SEG],
+            s8: [0; SEG], s9: [0; SEG], s10: [0; SEG], s11: [0; SEG], s12: [0; SEG], s13: [0; SEG], s14: [0; SEG], s15: [0; SEG], len: 0, pos: 0 }
     }
-    /// source of `len` bytes, every byte symbolic
+    /// source of `len` <= 512 bytes, every byte symbolic
     pub fn any(len: usize) -> Self {
-        Seg { s0: kani::any(), s1: kani::any(), s2: kani::any(), s3: kani::any(), s4: kani::any(), s5: kani::any(), s6: kani::any(), s7: kani::any(), len, pos: 0 }
+        Seg { s0: kani::any(), s1: kani::any(), s2: kani::any(), s3: kani::any(), s4: kani::any(), s5: kani::any(), s6: kani::any(), s7: kani::any(),
+            s8: [0; SEG], s9: [0; SEG], s10: [0; SEG], s11: [0; SEG], s12: [0; SEG], s13: [0; SEG], s14: [0; SEG], s15: [0; SEG], len, pos: 0 }
     }
     pub fn get(&self, i: usize) -> u8 {
         let j = i % SEG;
-        match i / SEG { 0 => self.s0[j], 1 => self.s1[j], 2 => self.s2[j], 3 => self.s3[j], 4 => self.s4[j], 5 => self.s5[j], 6 => self.s6[j], _ => self.s7[j] }
+        match i / SEG { 0 => self.s0[j], 1 => self.s1[j], 2 => self.s2[j], 3 => self.s3[j], 4 => self.s4[j], 5 => self.s5[j], 6 => self.s6[j], 7 => self.s7[j],
+            8 => self.s8[j], 9 => self.s9[j], 10 => self.s10[j], 11 => self.s11[j], 12 => self.s12[j], 13 => self.s13[j], 14 => self.s14[j], _ => self.s15[j] }
     }
     pub fn set(&mut self, i: usize, v: u8) {
         let j = i % SEG;
-        match i / SEG { 0 => self.s0[j] = v, 1 => self.s1[j] = v, 2 => self.s2[j] = v, 3 => self.s3[j] = v, 4 => self.s4[j] = v, 5 => self.s5[j] = v, 6 => self.s6[j] = v, _ => self.s7[j] = v }
+        match i / SEG { 0 => self.s0[j] = v, 1 => self.s1[j] = v, 2 => self.s2[j] = v, 3 => self.s3[j] = v, 4 => self.s4[j] = v, 5 => self.s5[j] = v, 6 => self.s6[j] = v,
+            7 => self.s7[j] = v, 8 => self.s8[j] = v, 9 => self.s9[j] = v, 10 => self.s10[j] = v, 11 => self.s11[j] = v, 12 => self.s12[j] = v,
+            13 => self.s13[j] = v, 14 => self.s14[j] = v, _ => self.s15[j] = v }
     }
     pub fn set32(&mut self, i: usize, v: u32) {
         let b = v.to_le_bytes();
@@ -85,9 +92,24 @@ impl Write for Seg {
         if n == 4 { self.set(p, b[0]); self.set(p + 1, b[1]); self.set(p + 2, b[2]); self.set(p + 3, b[3]); }
         else if n == 2 { self.set(p, b[0]); self.set(p + 1, b[1]); }
         else if n == 1 { self.set(p, b[0]); }
-        else {
+        else if n <= 8 {
             let mut k = 0;
             while k < n { self.set(p + k, b[k]); k += 1; }
+        } else {
+            // long slices (a file's whole data section): one block copy per 64-byte segment, so that the loop bound is
+            // the number of segments and not the number of bytes
+            let mut done = 0;
+            let mut q = p;
+            while done < n {
+                let j = q % SEG;
+                let take = if SEG - j < n - done { SEG - j } else { n - done };
+                let dst: &mut [u8; SEG] = match q / SEG { 0 => &mut self.s0, 1 => &mut self.s1, 2 => &mut self.s2, 3 => &mut self.s3, 4 => &mut self.s4,
+                    5 => &mut self.s5, 6 => &mut self.s6, 7 => &mut self.s7, 8 => &mut self.s8, 9 => &mut self.s9, 10 => &mut self.s10, 11 => &mut self.s11,
+                    12 => &mut self.s12, 13 => &mut self.s13, 14 => &mut self.s14, _ => &mut self.s15 };
+                dst[j..j + take].copy_from_slice(&b[done..done + take]);
+                done += take;
+                q += take;
+            }
         }
         self.pos = p + n;
         if self.pos > self.len { self.len = self.pos; }
